@@ -1429,6 +1429,9 @@ class ArrowSerializableDataclass:
 
         # Unwrap Optional type
         inner_type, _ = _is_optional_type(field_type)
+        # ``Annotated[X, ArrowType(...)] | None`` keeps the override inside the Optional
+        if get_origin(inner_type) is Annotated:
+            inner_type = get_args(inner_type)[0]
 
         # Handle pa.Schema reconstruction from bytes
         if inner_type is pa.Schema:
